@@ -1,5 +1,5 @@
 (* C18 - targeton regions tile the reference range and are reported as such. *)
-From VV Require Import Model.Base Model.Targeton Proofs.TargetonProofs Generated.KernelsTargeton Proofs.KernelTargetonEquiv.
+From VV Require Import Model.Base Model.Pattern Model.Gpo Model.Targeton Model.LiftTargeton Proofs.TargetonProofs Proofs.LiftTargetonProofs Generated.KernelsTargeton Proofs.KernelTargetonEquiv.
 
 (* const1, r1, r2, r3, const2 (empties omitted) list exactly the positions of [ref_start, ref_end], in order *)
 Theorem C18_regions_tile : forall c,
@@ -17,6 +17,11 @@ Theorem C18_seqs_concat_to_ref : forall c (bases : dna),
   exists rsl, get_all_regions c = Ok rsl /\
     concat (map (fun r => py_slice (rs r - rs (t_ref c)) (re r + 1 - rs (t_ref c)) bases) rsl) = bases.
 Proof. exact seqs_concat_to_ref. Qed.
+
+(* the same of the targeton in background coordinates (sge_proc.lift_targeton_config): whenever it exists, its regions tile its lifted range *)
+Theorem C18_lifted_targeton_tiles : forall g c c', 0 <= t_e1 c -> 0 <= t_e3 c -> lift_targeton g c = Ok c' ->
+  exists rsl, get_all_regions c' = Ok rsl /\ concat (map positions rsl) = positions (t_ref c') /\ Forall (fun r => range_valid r = true) rsl.
+Proof. exact lifted_targeton_tiles. Qed.
 
 (* regions 1 and 3 have the extension-vector lengths and flank region 2 directly *)
 Theorem C18_r1_r3_flank : forall c r,
@@ -43,3 +48,4 @@ Print Assumptions C18_regions_tile.
 Print Assumptions C18_seqs_concat_to_ref.
 Print Assumptions C18_r1_r3_flank.
 Print Assumptions C18_regions_match_source.
+Print Assumptions C18_lifted_targeton_tiles.
